@@ -1,5 +1,5 @@
 (** C13 — a Job disappears only after its tasks are gone; TTL deletion is never early. *)
-From Furiko Require Import Job.Core Job.Sync Proofs.JobP Proofs.SyncP.
+From Furiko Require Import Job.Core Job.Sync Job.World Proofs.JobP Proofs.SyncP Proofs.HistoryP Proofs.CacheP.
 
 (** The pass removes the delete-dependents finalizer only from a Job that is being
     deleted, and only when no task named in its status is present in the Pod cache.  (The
@@ -61,3 +61,61 @@ Example c13_nonvacuous :
   (let '(s, j, ok) := handle_finalizer (mkPS (ex_world []) [] false []) ex_job 201 in (ps_actions s, j_finalizer j))
   = ([], false).
 Proof. split; vm_compute; reflexivity. Qed.
+
+
+(** * over histories
+    For every history of the one-Job world (reconcile passes against lagging caches, kubelet
+    transitions and delays, foreign Pods, start / kill / delete by users, injected failures
+    and conflicts): a Job that carries the delete-dependents finalizer leaves the API only in
+    a reconcile pass, only while it is being deleted, and only when that pass saw no Pod
+    cached under any task name recorded in the Job's status; the pass leaves the Pods alone;
+    and if the Pod cache had received every event, none of those tasks exists in the API at
+    that moment.  (With Pod events still on their way the last clause fails: finding F4c.) *)
+Theorem c13_job_removed_after_tasks :
+  forall cfg j0 now ops o a,
+    let w := jrun_world cfg (init_jworld j0 now) ops in
+    let w' := fst (fst (fst (jstep cfg w o))) in
+    api_job w = Some a -> j_finalizer a = true -> api_job w' = None ->
+    o = JSync /\ j_deletion a <> None /\ api_pods w' = api_pods w /\
+    (forall r, In r (j_tasks a) -> find_pod (tr_name r) (cache_pods w) = None) /\
+    (pod_pending w = [] -> forall r, In r (j_tasks a) -> find_pod (tr_name r) (api_pods w') = None).
+Proof. exact job_removed_after_tasks. Qed.
+Print Assumptions c13_job_removed_after_tasks.
+
+(** Pod cache coverage, every history: once nothing is on its way, a name that is absent
+    from the Pod cache is absent from the API *)
+Theorem c13_pod_cache_covers_api :
+  forall cfg j0 now ops,
+    let w := jrun_world cfg (init_jworld j0 now) ops in
+    pod_pending w = [] -> forall n, find_pod n (cache_pods w) = None -> find_pod n (api_pods w) = None.
+Proof. exact cache_covers_api. Qed.
+Print Assumptions c13_pod_cache_covers_api.
+
+(** "once they are gone the Job's deletion does complete": a pass over current caches in
+    which nothing fails removes a deleting Job whose recorded tasks are all gone *)
+Theorem c13_deletion_completes :
+  forall cfg w j d,
+    cache_job w = Some j -> api_job w = Some j -> cache_rv w = api_rv w ->
+    j_deletion j = Some d -> j_finalizer j = true -> faults w = [] ->
+    (forall r, In r (j_tasks j) -> find_pod (tr_name r) (cache_pods w) = None) ->
+    api_job (fst (fst (fst (sync_one cfg w)))) = None.
+Proof. exact deletion_completes. Qed.
+Print Assumptions c13_deletion_completes.
+
+(** Non-vacuity over a history: a started Job creates its task, is deleted by the user, the
+    pass deletes the Pod, the kubelet terminates it, the events arrive, the next pass lets the
+    Job go. *)
+Definition ex_hist_job : job :=
+  mkJob ["aaaaaa"] false AllSuccessful 1 0 false false None false None None false true None (Some 10)
+        [] 0 0 None (CWaiting WPendingCreation) PhStarting SWaiting.
+Definition ex_hist_ops : list jop :=
+  [JSync; JAdvanceJob 5; JAdvancePods 5; JKubelet "j-aaaaaa-0" KSchedule; JKubelet "j-aaaaaa-0" KRun; JAdvancePods 5;
+   JSync; JAdvanceJob 5; JDelete; JAdvanceJob 5; JSync; JAdvanceJob 5; JAdvancePods 5; JSync; JAdvanceJob 5;
+   JClock 200; JKubelet "j-aaaaaa-0" KTerminate; JAdvancePods 5].
+Example c13_history_nonvacuous :
+  let cfg := mkCfg (Some 900) (Some 900) (Some 3600) in
+  let w := jrun_world cfg (init_jworld ex_hist_job 100) ex_hist_ops in
+  let w' := fst (fst (fst (jstep cfg w JSync))) in
+  option_map (fun a => (j_finalizer a, map tr_name (j_tasks a), j_deletion a)) (api_job w) = Some (true, ["j-aaaaaa-0"], Some 100) /\
+  pod_pending w = [] /\ api_job w' = None /\ api_pods w' = [].
+Proof. vm_compute. repeat split; reflexivity. Qed.
